@@ -102,11 +102,12 @@ def mknode(kind, site, counts=(), first=NOFIRST, foreign=None):
 
 
 class State:
-    __slots__ = ("la", "aerr", "prog", "err", "stack", "vals", "since")
+    __slots__ = ("la", "aerr", "prog", "err", "stack", "vals", "since", "saved")
 
-    def __init__(self, la, aerr, prog, err, stack, vals, since):
+    def __init__(self, la, aerr, prog, err, stack, vals, since, saved=False):
         self.la = la
         self.aerr = aerr
+        self.saved = saved      # the current token has already been written to the tree
         self.prog = prog
         self.err = err
         self.stack = stack      # tuple of node tuples; stack[0] is the base pseudo node
@@ -114,12 +115,12 @@ class State:
         self.since = since      # tuple of (loop head, progressed since last visit)
 
     def key(self):
-        return (self.la, self.aerr, self.prog, self.err, self.stack,
+        return (self.la, self.aerr, self.saved, self.prog, self.err, self.stack,
                 tuple(sorted(self.vals.items())), self.since)
 
     def key_nola(self):
         shape = tuple((n[0], n[1], n[4]) for n in self.stack)
-        return (self.aerr, self.prog, self.err, shape,
+        return (self.aerr, self.saved, self.prog, self.err, shape,
                 tuple(sorted(self.vals.items())), self.since)
 
     def soft(self):
@@ -143,7 +144,7 @@ class State:
         return changed
 
     def copy(self):
-        return State(self.la, self.aerr, self.prog, self.err, self.stack, dict(self.vals), self.since)
+        return State(self.la, self.aerr, self.prog, self.err, self.stack, dict(self.vals), self.since, self.saved)
 
 
 class Outcome(tuple):
@@ -190,6 +191,7 @@ class ParserAI:
         self.states_explored = 0
         self.changed = False
         self.ctx_by_fn = defaultdict(set)
+        self.discipline = {}    # violations of the save/lex alternation and of `current` provenance
         self.assert_calls = defaultdict(set)   # (fn, bb) -> set of (la, kind) at calls of ParserBase::assert
         self.call_la = defaultdict(set)  # (caller fn, bb, callee) -> la sets seen
 
@@ -380,8 +382,8 @@ class ParserAI:
         return UNK
 
     # ------------------------------------------------------------------ context evaluation
-    def summary(self, fn, la, aerr, argvals, caller=None):
-        ctx = (fn, la, aerr, argvals)
+    def summary(self, fn, la, flags, argvals, caller=None):
+        ctx = (fn, la, flags, argvals)
         if caller is not None:
             self.deps[ctx].add(caller)
         # left recursion: the same context is already being evaluated and nothing was consumed since
@@ -411,14 +413,14 @@ class ParserAI:
             rounds += 1
             self.changed = False
             self._done_round = set()
-            self.summary(root_fn, la, False, argvals)
+            self.summary(root_fn, la, (False, False), argvals)
             if not self.changed or rounds > 60:
                 break
         self.rounds = rounds
-        return self.memo[(root_fn, la, False, argvals)]
+        return self.memo[(root_fn, la, (False, False), argvals)]
 
     def _eval(self, ctx):
-        fn, la, aerr, argvals = ctx
+        fn, la, (aerr, saved0), argvals = ctx
         self._done_round.add(ctx)
         body = self.prog.body(fn)
         self.ctx_by_fn[fn].add(ctx)
@@ -427,7 +429,7 @@ class ParserAI:
         for i, v in enumerate(argvals):
             if v != UNK:
                 vals[i + 1] = v
-        st0 = State(la, aerr, False, False, (mknode("<base>", None),), vals, ())
+        st0 = State(la, aerr, False, False, (mknode("<base>", None),), vals, (), saved0)
         outcomes = set()
         self.active.append([ctx, False])
         try:
@@ -523,7 +525,7 @@ class ParserAI:
                 # calling contexts finite and small); positive knowledge (small sets) stays exact
                 la_out = self.ALL if st.prog else la_out
             first = coarse_first(base[3])
-            out = Outcome((la_out, st.aerr, st.prog, st.err, ret, base[2], first, acts))
+            out = Outcome((la_out, (st.aerr, st.saved), st.prog, st.err, ret, base[2], first, acts))
             outcomes.add(out)
             return []
         if k == "unreachable":
@@ -541,7 +543,7 @@ class ParserAI:
         if proj and proj[0] == "*" and base == SELF and len(proj) == 2 and isinstance(proj[1], dict):
             n = proj[1].get("n")
             if n == "current":
-                self.set_current(st, val)
+                self.set_current(st, val, body.path)
             elif n == "is_after_error":
                 st.aerr = val[1] if val[0] == "bool" else None
             return
@@ -555,8 +557,13 @@ class ParserAI:
         if l in st.vals and st.vals[l][0] in ("tuple",):
             st.vals.pop(l, None)
 
-    def set_current(self, st, val):
+    def set_current(self, st, val, where=None):
         # a new token was lexed
+        if not st.saved and st.la != frozenset(["Eof"]):
+            self.discipline.setdefault(("lex-without-save", where), sorted(st.la)[:6])
+        if val != ("fresh",):
+            self.discipline.setdefault(("current-not-lexed", where), repr(val))
+        st.saved = False
         if val == ("fresh",):
             if st.la == frozenset(["Eof"]):
                 st.la = frozenset(["Eof"])
@@ -734,9 +741,9 @@ class ParserAI:
         self.call_la[(fn, b, callee)].add(st.la)
         # mark progress of the frames on the stack (for left-recursion detection)
         self.active[-1][1] = st.prog
-        outs = self.summary(callee, st.la, st.aerr, argvals, caller=ctx)
+        outs = self.summary(callee, st.la, (st.aerr, st.saved), argvals, caller=ctx)
         res = []
-        for (la, aerr, prog, err, ret, opened, first, actions) in outs:
+        for (la, (aerr, saved), prog, err, ret, opened, first, actions) in outs:
             s2 = st.copy()
             if la != st.la or prog:
                 # the current token may have changed: stale token-derived values die
@@ -744,6 +751,7 @@ class ParserAI:
                     s2.vals.pop(k)
             s2.la = la
             s2.aerr = aerr
+            s2.saved = saved
             if prog:
                 self.note_progress(s2)
             s2.err = s2.err or err
@@ -828,6 +836,12 @@ class ParserAI:
         site = (fn, b)
         if name == "token":
             # the current token is written to the tree
+            if st.saved:
+                self.discipline.setdefault(("double-save", fn), body.where(b))
+            st.saved = True
+            kv = self.deref(st, args[1]) if len(args) > 1 else UNK
+            if kv != CUR:
+                self.discipline.setdefault(("token-kind-not-current", fn), body.where(b))
             out = []
             if "Eof" in st.la:
                 s1 = st.copy()
